@@ -5,6 +5,7 @@ import re
 from ..core import AnalysisError, norm
 from ..sim import check_reach
 from ..xmlr import corpus
+from . import common
 from .common import (effects, paths_of, check_writers, arg_by_name, named_call_sites, ctor_sites)
 
 TRUSTED = ['CPython ast / xml.etree', 'engine /verif/sa', 'the shipped corpus resources/protocols/**/*.xml read as data']
@@ -118,27 +119,58 @@ def run(ctx):
         if not tags:
             raise AnalysisError('C07.2: cannot determine which XML element %s is applied to' % fn)
         pname = f.params()[0]
-        for n in f.body_nodes():
-            attr = None
-            if isinstance(n, ast.Subscript) and norm(n.value) == pname + '.attrib' and isinstance(n.slice, ast.Constant):
-                attr = n.slice.value
-            if isinstance(n, ast.Call) and norm(n.func) == pname + '.attrib.get' and n.args and isinstance(n.args[0], ast.Constant):
-                attr = n.args[0].value
-            if attr is None:
-                continue
+        seen_attr = {}
+        for p in paths_of(repo, f, unroll=1, asserts='fork'):
+            for e in p.events:
+                if e.func is not f and not common.is_new_function(e.func):
+                    continue
+                m = None
+                if e.kind == 'load-sub' and e.text:
+                    m = re.match(r"^%s\.attrib\['(\w+)'\]$" % re.escape(pname), e.text)
+                elif e.kind == 'call' and e.ftext == pname + '.attrib.get' and e.args and isinstance(e.args[0], ast.Constant):
+                    m = re.match(r'^(.*)$', str(e.args[0].value))
+                if m and m.group(1) not in seen_attr:
+                    seen_attr[m.group(1)] = e.node
+        for attr, n in sorted(seen_attr.items()):
             nattr += 1
             cnt = sum(cp.elem_attrs.get(t, {}).get(attr, 0) for t in tags)
             ctx.check(cnt > 0, 'C07.2', 'attr:%s:%s' % (fn, attr), f.loc(n), 'attribute %r occurs on <%s> (%d times)' % (attr, '/'.join(sorted(tags)), cnt),
                       'the reader asks <%s> for attribute %r, which the shipped XML never carries' % ('/'.join(sorted(tags)), attr))
     ctx.floor('C07.2', nattr, 11, 'attribute reads in the XML reader')
-    # bitfield values accepted
+    # bitfield values accepted: decided by folding the paths of parse_enum for each value the corpus carries (and for an absent attribute)
     f_pe = readers['parse_enum']
-    accepted = set()
-    for n in f_pe.body_nodes():
-        if isinstance(n, ast.Compare) and isinstance(n.comparators[0], ast.Constant) and 'bitfield' in norm(n.left):
-            accepted.add(n.comparators[0].value)
-    ctx.check(cp.bitfield_values <= accepted, 'C07.2', 'bitfield-values', f_pe.loc(), 'every bitfield value in the corpus %s is accepted %s' % (sorted(cp.bitfield_values), sorted(accepted)),
-              'bitfield values %s occur in the corpus but parse_enum accepts only %s' % (sorted(cp.bitfield_values - accepted), sorted(accepted)))
+    from ..peval import fold as _fold, Unfoldable as _Unf, module_resolver as _mres
+    res_pe = _mres(repo, f_pe.module)
+    pe_paths = paths_of(repo, f_pe, unroll=1, asserts='ignore')
+    reads = {}
+    for p in pe_paths:
+        for e in p.events:
+            if e.kind == 'call' and e.ftext and e.ftext.endswith('.attrib.get') and e.args and isinstance(e.args[0], ast.Constant) and e.args[0].value == 'bitfield':
+                reads[e.text] = e.args[1].value if len(e.args) > 1 and isinstance(e.args[1], ast.Constant) else None
+            if e.kind == 'load-sub' and e.text and e.text.endswith(".attrib['bitfield']"):
+                reads[e.text] = KeyError
+    ctx.check(len(reads) == 1, 'C07.2', 'bitfield-read', f_pe.loc(), 'parse_enum reads the bitfield attribute in one way', 'bitfield attribute reads: %s' % sorted(reads))
+    init_enum = repo.cls(P + '.Enum').find_method('__init__')
+    if len(reads) == 1:
+        rtext, dflt = list(reads.items())[0]
+        cases = [(v, v) for v in sorted(cp.bitfield_values)] + ([('<absent>', dflt)] if dflt is not KeyError else [])
+        for label, v in cases:
+            texts = {rtext: v}
+            ps_ = [p for p in common.paths_for_input(pe_paths, {}, texts, res_pe)]
+            got = set()
+            for p in ps_:
+                if p.outcome[0] != 'return':
+                    got.add('raises')
+                    continue
+                rv = p.outcome[1]
+                a_ = arg_by_name(rv, init_enum, 'bitfield') if isinstance(rv, ast.Call) else None
+                try:
+                    got.add(repr(_fold(a_, {}, texts, res_pe)) if a_ is not None else '?')
+                except _Unf as ex:
+                    got.add('not evaluable: %s' % ex)
+            want = repr(v == 'true')
+            ctx.check(got == {want}, 'C07.2', 'bitfield-values:%s' % label, f_pe.loc(), 'bitfield=%s gives an enum with bitfield=%s' % (label, want),
+                      'for bitfield=%s (a value the shipped XML carries) parse_enum gives %s' % (label, sorted(got)))
     # enum value syntax accepted (patterns taken from the source, applied to the corpus data)
     pm = repo.modules[P]
     pats = {}
@@ -339,7 +371,10 @@ def run(ctx):
         if nonempty and nonempty[0] != bool(apps):
             continue        # infeasible: the list is non-empty exactly when something was appended
         if apps:
-            ctx.check(rv == 'entries' or rv == norm(apps[0].recv), 'C07.6', 'enum:returns-labels', f_lue.loc(), 'with matching entries, exactly those are returned', 'returns %s' % rv)
+            from ..sim import _literal_elts
+            known = _literal_elts(p.outcome[1])
+            same = known is not None and [norm(x) for x in known] == [norm(e.args[0]) for e in apps]      # the returned list, element by element
+            ctx.check(rv == 'entries' or rv == norm(apps[0].recv) or same, 'C07.6', 'enum:returns-labels', f_lue.loc(), 'with matching entries, exactly those are returned', 'returns %s' % rv)
         else:
             nfb += 1
             if not bf:
@@ -430,21 +465,37 @@ def run(ctx):
             n += 1
             for k, w in want.items():
                 got = norm(arg_by_name(rv, init, k))
+                if got.endswith(')') and got + '|' in ''.join(x[:-7] + ')|' for x in w.split('|') if x.endswith(', None)')):
+                    got = got[:-1] + ', None)'      # d.get(k) is d.get(k, None)
                 ctx.check(got in w.split('|'), 'C07.8', '%s:%s' % (fn, k), f.loc(), '%s.%s <- %s' % (cname, k, w.split('|')[0]), '%s.%s is read from %s' % (cname, k, got))
         ctx.floor('C07.8', n, 1, 'returning path of ' + fn)
-    # containers keyed by the element's own name, in document order
+    # containers keyed by the element's own name, in document order: either filled by stores `cont[x.name] = x` inside the loop over the
+    # children, or built from a comprehension of (x.name, x) pairs over them (known element by element on each path)
+    CTOR = {'parse_message': 'Message', 'parse_enum': 'Enum', 'parse_interface': 'Interface', 'parse_protocol': 'Protocol'}
     for fn, cont in (('parse_message', 'args'), ('parse_enum', 'entries'), ('parse_interface', 'messages'), ('parse_interface', 'enums'), ('parse_protocol', 'interfaces')):
         f = readers[fn]
+        init_c = repo.cls(P + '.' + CTOR[fn]).find_method('__init__')
         n = 0
+        built = False
         for p in paths_of(repo, f, unroll=1, asserts='ignore'):
             for e in p.events:
                 if e.kind == 'store' and e.target and e.target.startswith(cont + '['):
                     n += 1
                     k = e.target[len(cont) + 1:-1]
                     ctx.check(k == norm(e.value) + '.name', 'C07.8', '%s:%s-keyed-by-name' % (fn, cont), f.loc(e.node), '%s is keyed by each element\'s own name' % cont, '%s[%s] <- %s' % (cont, k[:60], norm(e.value)[:60]))
+            rv = p.outcome[1] if p.outcome[0] == 'return' else None
+            val = arg_by_name(rv, init_c, cont) if isinstance(rv, ast.Call) and norm(rv.func) == CTOR[fn] else None
+            if isinstance(val, ast.Call) and norm(val.func) in ('OrderedDict', 'dict', 'collections.OrderedDict') and len(val.args) == 1 and not val.keywords and hasattr(val.args[0], '_elts'):
+                built = True
+                for pair in val.args[0]._elts:
+                    n += 1
+                    ok = isinstance(pair, ast.Tuple) and len(pair.elts) == 2 and norm(pair.elts[0]) == norm(pair.elts[1]) + '.name'
+                    ctx.check(ok, 'C07.8', '%s:%s-keyed-by-name' % (fn, cont), f.loc(), '%s is keyed by each element\'s own name' % cont, '%s is built from %s' % (cont, norm(pair)[:80]))
         ctx.floor('C07.8', n, 1, 'store into %s in %s' % (cont, fn))
+        if built:
+            ctx.check(True, 'C07.8', '%s:%s-ordered' % (fn, cont), f.loc(), '%s keeps document order (a dict built from the children in iteration order)' % cont)
         for node in f.body_nodes():
-            if isinstance(node, ast.Assign) and isinstance(node.targets[0], ast.Name) and node.targets[0].id == cont:
+            if isinstance(node, ast.Assign) and isinstance(node.targets[0], ast.Name) and node.targets[0].id == cont and not built:
                 ctx.check(norm(node.value) in ('OrderedDict()', '{}', 'dict()'), 'C07.8', '%s:%s-ordered' % (fn, cont), f.loc(node), '%s keeps document order' % cont)
     # ---- C07.9 names, labels and nil types are displayed ----------------------------------------------------------------------------
     f_bs = repo.func('Arg.Base.__str__')
